@@ -899,6 +899,8 @@ func flowSponsorRollback(r *Recorder, accts []*Account) {
 	sponsored(dataA, dataA, 1, 100)
 	r.EndBlock()
 	r.BeginBlock()
+	r.Cancel(sp.acct, m.gw.Bech(), lastOrder()) // the creator names a node it does not act for: refused
+	r.Cancel(accts[10], accts[10].Bech(), lastOrder()) // a third party on its own declaration: refused
 	r.Cancel(sp.acct, sp.acct.Bech(), lastOrder())
 	r.EndBlock()
 	// handed to the provider, which never completes: ten timeouts later the order is given up
